@@ -168,6 +168,10 @@ def run_check(check_id, tier, seed, W, n_jobs_override=None, budget_override=Non
         reported.append({"signature": msig, "replay": path})
         exit_code = common.EXIT_VIOLATION
 
+    if hasattr(check, "vacuity") and jobs:
+        # a check that silently stopped observing (a tap that is no longer called, an oracle
+        # that skipped everything) must not report "held"
+        errors.extend(check.vacuity(acc))
     for sig, path, m in unreproducible:
         print(f"[{check_id}] UNREPRODUCIBLE (harness error, not a violation): {sig} plan={path} {m}")
     for e in errors[:20]:
